@@ -311,12 +311,19 @@ func runC23(op string) string {
 	wait:
 		for {
 			mu.Lock()
-			enough := len(cb) >= nB && (last != "D" || done > 0)
+			// a handled BatchDone ends the batch: nothing sent after it is ever handled
+			enough := (len(cb) >= nB && (last != "D" || done > 0)) || done > 0
 			mu.Unlock()
-			if enough {
+			if enough || len(evs) == 0 {
 				break
 			}
 			select {
+			case r := <-resCh:
+				got = &r
+				if r.err != nil {
+					// the request failed (NoBlocks, protocol error): no batch will be delivered
+					break wait
+				}
 			case <-progress:
 			case <-cli.DoneChan():
 				// the protocol has failed: nothing more will be delivered
@@ -325,16 +332,21 @@ func runC23(op string) string {
 				break wait
 			}
 		}
-		select {
-		case r := <-resCh:
-			got = &r
-		case <-cli.DoneChan():
+		if got == nil {
+			if len(evs) == 0 {
+				settle = 30 * time.Millisecond
+			}
 			select {
 			case r := <-resCh:
 				got = &r
-			case <-time.After(5 * time.Second):
+			case <-cli.DoneChan():
+				select {
+				case r := <-resCh:
+					got = &r
+				case <-time.After(5 * time.Second):
+				}
+			case <-time.After(settle):
 			}
-		case <-time.After(settle):
 		}
 	}
 	// silence is over: the peer disconnects
